@@ -1,6 +1,7 @@
 import MosnVerif.Drive.Util
 import MosnVerif.Model.CheckedWire
 import MosnVerif.Model.H2Alloc
+import MosnVerif.Model.StreamAlloc
 /-! [c08p10] helper driver of C08, kinds `mat` (protocol matchers) and `h2pay` (HTTP/2 frame payload parsers): the
 regenerated checked-access programs (Gen/C08Matchers, Gen/C08H2Parse) evaluated on the case. Core Lean only; no `main`. -/
 namespace MosnVerif.Drive.C08Chk
@@ -75,5 +76,36 @@ def h2hl (limit fields : String) (impl : List String) : String :=
       | _ => false
     s!"{if m == o then "A" else "D"} {if spec then "S" else "V"} {m}"
   | _, _ => "E E bad-h2hl-case"
+
+/-- `h2body <srv|cli> <content-length hex | none> <n1,n2,…> <end> => <ret|panic|hang> <len:cap | -> <small | <MiB>M>`:
+one real HTTP/2 stream connection; HEADERS announcing the content-length, then DATA payloads of the given sizes.
+Model: the collecting buffer allocated with the REGENERATED size expression (`sa_srv_collect` / `sa_cli_collect`) of the
+first payload and the announced value, grown by `Write` per payload (capacity arithmetic of mosn.io/pkg by hand); whether
+the message is delivered is not predicted (`-` is accepted).  Predicate (independent of the regenerated expression): the
+Dispatch returned, the process allocated less than 16 MiB meanwhile, and a delivered body has the length that arrived
+in a capacity ≤ 8·received + 4096. -/
+def h2body (side cl chunks endS : String) (impl : List String) : String :=
+  let annS : Option String := if cl == "none" then some "" else (unhex cl).map (fun b => String.ofList (b.map (fun x => Char.ofNat x.toNat)))
+  match annS, (chunks.splitOn ",").mapM String.toNat?, impl with
+  | some a, some cs, [o, body, alloc] =>
+    let _ := endS
+    let ann : Int := if cl == "none" then -1 else MosnVerif.Model.StreamAlloc.parseInt64 a
+    let first := if side == "srv" then MosnVerif.Gen.C08StreamAlloc.sa_srv_collect else MosnVerif.Gen.C08StreamAlloc.sa_cli_collect
+    let req : Int := first ((cs.headD 0 : Nat) : Int) ann
+    let mOut := if req > 140737488355328 then "panic" else "ret"
+    let mAlloc := if req ≥ 16777216 then s!"{MosnVerif.Model.StreamAlloc.newCap req / 1048576}M" else "small"
+    let mBody := match MosnVerif.Model.StreamAlloc.collect first ann cs with
+      | some b => s!"{b.len}:{b.cap}"
+      | none => "-"
+    let agree := o == mOut && alloc == mAlloc && (body == "-" || body == mBody)
+    let tot := MosnVerif.Model.StreamAlloc.total cs
+    let spec : Bool := o == "ret" && alloc == "small" &&
+      (body == "-" || (match body.splitOn ":" with
+        | [l, c] => (match l.toNat?, c.toNat? with
+          | some ln, some cp => ln == tot && decide (cp ≤ MosnVerif.Model.StreamAlloc.capBound ln)
+          | _, _ => false)
+        | _ => false))
+    s!"{if agree then "A" else "D"} {if spec then "S" else "V"} {mOut} {mBody} {mAlloc}"
+  | _, _, _ => "E E bad-h2body-case"
 
 end MosnVerif.Drive.C08Chk
